@@ -11,6 +11,13 @@ operation (least m >= 1 with m*(N t) in N(L)); the kernel checks it (`checkScrew
 census of (det, trace, m) per coset with the committed reference of `number % 1000` (lean/DS/Ref/ItCensus.lean);
 `checkScrew_sound` is the hand proof.  `type_census` below is the independent Python oracle of the same invariant
 (failing-input search, replay stream "ittype").
+
+Space-group TYPE by explicit equivalence (DS.Props.C03d): harness/c03_equiv.py finds, for every setting, an orientation-preserving
+affine change of coordinates (P, p) onto the FROZEN standard setting of `number % 1000` (harness/c03_equiv.json =
+lean/DS/Ref/ItRef*.lean) and verifies it exactly for all operations in both directions; translate/equiv.py expands it into a
+certificate with index maps that the kernel checks (`checkEquiv`, one obligation per setting); `checkEquiv_sound` is the hand
+proof that an accepted certificate carries the one group onto the other.  A setting without a certificate is reported as
+`ittype:<number>` (replay stream "itequiv": the search is repeated on the tree under test), naming the type it IS a setting of.
 """
 import itertools
 import json
@@ -334,6 +341,14 @@ def run(ck):
         raise common.Broken("lean/DS/Ref/ItCensus.lean is not what translate/screw.py --write-reference derives from "
                             "harness/c03_itcensus.json (reference data edited on one side only)")
     ok_c, info_c = ck.lean_obligations("DS.Props.C03c", extra_count=srep.get("obligations", 0))
+    # space-group TYPE by equivalence certificates against the frozen reference settings (kernel side of harness/c03_equiv.py)
+    from translate import equiv
+
+    erep = equiv.main(GEN, os.path.join(GEN, "equiv_report.json"))
+    if not erep.get("reference_in_sync"):
+        raise common.Broken("lean/DS/Ref/ItRef*.lean is not what translate/equiv.py --write-reference derives from "
+                            "harness/c03_equiv.json (reference data edited on one side only)")
+    ok_d, info_d = ck.lean_obligations("DS.Props.C03d", extra_count=erep.get("obligations", 0))
     healthy = not lrep.get("uncertified") and not lrep.get("rule_errors") and not lrep.get("rule_differs_from_model")
     if healthy:
         ok_f, info_f = ck.lean_obligations("DS.Props.C03bFull")
@@ -368,8 +383,9 @@ def run(ck):
     # (harness/c03_equiv.py; results are merged into the `ittype:` verdicts below)
     from . import c03_equiv
 
-    eqres = c03_equiv.run_equiv(ck, sgs.SpaceGroupList, skip_pos=notgroup)
+    eqres = c03_equiv.run_equiv(ck, sgs.SpaceGroupList, skip_pos=notgroup, deep=(ck.tier == "thorough"))
     eq_fail = eqres["failed"]
+    eq_failed_pos = set(eq_fail)
     ck.coverage["itequiv"] = {"certified": eqres["certified"], "uncertified": len(eqres["uncertified"]),
                               "uncertified_settings": eqres["uncertified"], "failed": len(eq_fail), "skipped": eqres["skipped"],
                               "by_crystal_system": eqres["by_system"], "certificate_sources": eqres["sources"],
@@ -411,7 +427,14 @@ def run(ck):
         sg = bypos[pos]
         ck.fail("ittype:%s" % sg.number, "setting %s (#%s): %s" % (sg.short_name, sg.number, er["what"]),
                 {"kind": "oracle", "setting": sg.number, "stream": "itequiv", "detail": er,
-                 "theorem": "no DS.Gen.sg%s_equiv (DS.Props.C03d)" % sg.number})
+                 "theorem": "no DS.Gen.sg%s_equiv (DS.Props.C03d)%s" % (sg.number, (
+                     "; DS.Gen.sg%s_is_type_%s (kernel-checked)" % (sg.number, er["is_setting_of"]) if er.get("is_setting_of") else ""))})
+    ebad = {b["pos"] for b in erep["bad"]}
+    unc_pos = {p_ for p_, sg_ in bypos.items() if sg_.number in {u["number"] for u in eqres["uncertified"]}}
+    if ebad - notgroup != (eq_failed_pos | unc_pos) - notgroup and not ck.violations:
+        ck.fail("itequiv-cert", "translate/equiv.py and harness/c03_equiv.py disagree about the settings without a certificate: %r vs %r" % (
+            sorted(ebad), sorted(eq_failed_pos | unc_pos)), {"kind": "proof-obligation", "stream": "itequiv", "theorem": "DS.Gen.allE_ok"},
+            no_failing_input=True)
     for u in rep["untranslatable"]:
         o = oracle_fail.pop(u["pos"], None)
         ck.fail("untranslatable:%s" % u["number"], "setting #%s: %s" % (u["number"], u["why"]),
@@ -431,6 +454,11 @@ def run(ck):
         ck.fail("lean-build-c03c", "Lean obligations of C03c (space-group type census) no longer check: %s" % (info_c["failed_modules"],),
                 {"kind": "proof-obligation", "theorem": info_c["failed_modules"], "errors": info_c["errors"], "log": info_c.get("log_tail", "")},
                 no_failing_input=True)
+    if not ok_d and not ck.violations:
+        ck.fail("lean-build-c03d", "Lean obligations of C03d (space-group type by equivalence certificates) no longer check: %s" % (
+            info_d["failed_modules"],),
+            {"kind": "proof-obligation", "theorem": info_d["failed_modules"], "errors": info_d["errors"], "log": info_d.get("log_tail", "")},
+            no_failing_input=True)
     # 3. distinct numbers / uniqueness of registered numbers
     nums = [g.number for g in sgs.SpaceGroupList]
     if len(set(nums)) != len(nums):
@@ -555,6 +583,8 @@ def run(ck):
     ck.coverage["samples"] = [
         {"obligation": "theorem DS.Gen.sg225_ok : checkSG sg225 sg225c = true := by decide +kernel"},
         {"obligation": "theorem DS.Gen.sg76_type : checkScrew sg76 sg76_sc = true := by decide +kernel"},
+        {"obligation": "theorem DS.Gen.sg2033_equiv : checkEquivSG sg2033 sg2033_eq = true := by decide +kernel",
+         "certificate": c03_equiv.load_reference()["certificates"].get("2033")},
         {"driver": lines[0], "model": out[0], "impl": expect[0]},
         {"latpar": "sg #%s invariant cell %r" % (bypos[poss[-1]].number, cell_of_metric(invariant_metric(bypos[poss[-1]], G0)))},
     ]
@@ -581,8 +611,14 @@ def run(ck):
 
 
 def thorough(ck):
-    """leanchecker re-check of the compiled obligations."""
-    for mod in ("DS.Props.C03", "DS.Props.C03c"):
+    """leanchecker re-check of the compiled obligations; consistency of the frozen reference settings."""
+    from . import c03_equiv
+
+    same = c03_equiv.references_pairwise_inequivalent()
+    ck.notes.append("frozen reference settings: %d pairs of one crystal class found equivalent (expected 0)" % len(same))
+    if same:
+        raise common.Broken("harness/c03_equiv.json: reference settings of different numbers are equivalent: %r" % (same[:3],))
+    for mod in ("DS.Props.C03", "DS.Props.C03c", "DS.Props.C03d"):
         with common.LeanLock():
             rc, out, err = common.run(["lake", "env", "leanchecker", mod], cwd=LEAN, timeout=7200)
         ck.notes.append("leanchecker %s: rc=%d %s" % (mod, rc, (out + err)[-300:]))
